@@ -6,8 +6,8 @@ from mc import driver as D
 
 PROP = 'C03'
 RULE = ('ALL labelled dependency digraphs on n cells (n <= 3 quick, n = 4 thorough, n = 5 with out-degree <= 2 sampled by a '
-        'fixed stride in thorough) laid out over two sheets (S!A1,S!B1,S!C1,T!A1,T!B1), every edge realised in each of three '
-        'forms (direct reference, one-cell range inside SUM, reference inside IF), formula texts built so that cells on '
+        'fixed stride in thorough) laid out over two sheets (S!A1,S!B1,S!C1,T!A1,T!B1), every edge realised in each of four '
+        'forms (direct reference, one-cell range inside SUM, reference inside IF, whole column inside SUM), formula texts built so that cells on '
         'different sheets with the same successors have byte-identical texts; acyclic: every node as entry point (numeric, '
         'A1-style and a Cell object already used with an Executor): entry class defines every reachable cell and gives the '
         'whole-file value = reference value; cyclic: whole-file translation and every entry reaching the cycle must raise the '
@@ -17,7 +17,7 @@ ASSUMPTIONS = ['reference value: leaf = distinct prime, inner cell = sum over su
 CELLS = [('S', 'A', 1), ('S', 'B', 1), ('S', 'C', 1), ('T', 'A', 1), ('T', 'B', 1)]
 TIDX = {'S': 0, 'T': 1}
 PRIMES = [3, 5, 7, 11, 13]
-FORMS = ['direct', 'sumrange', 'inif']
+FORMS = ['direct', 'sumrange', 'inif', 'wholecol']
 
 
 def ref_text(src, dst, form):
@@ -27,6 +27,9 @@ def ref_text(src, dst, form):
         return pre + a
     if form == 'sumrange':
         return f'SUM({pre}{a}:{a})'
+    if form == 'wholecol':
+        # every cell of the layout sits in row 1, the last (and only) used row of its sheet, alone in its column
+        return f'SUM({pre}{dst[1]}:{dst[1]})'
     return f'IF(1>0,{pre}{a},0)'
 
 
@@ -97,18 +100,84 @@ def plan(tier, seed):
         for n in ns:
             for gi, edges in enumerate(all_graphs(n)):
                 for form in FORMS:
-                    if n == 4 and form != FORMS[gi % 3]:
+                    if n == 4 and form != FORMS[gi % len(FORMS)]:
                         continue
                     yield {'n': n, 'edges': [list(e) for e in edges], 'form': form}
         if tier == 'thorough':
             for gi, edges in enumerate(all_graphs(5, 2)):
                 if gi % 257 == 0:
-                    yield {'n': 5, 'edges': [list(e) for e in edges], 'form': FORMS[gi % 3]}
+                    yield {'n': 5, 'edges': [list(e) for e in edges], 'form': FORMS[gi % len(FORMS)]}
         else:
             # quick: n = 4 restricted to out-degree <= 1 plus the cross-sheet pairs
             for gi, edges in enumerate(all_graphs(4, 1)):
-                yield {'n': 4, 'edges': [list(e) for e in edges], 'form': FORMS[gi % 3]}
-    return [{'name': 'graphs', 'cases': gen(), 'runner': 'run_graphs', 'chunk': 12}]
+                yield {'n': 4, 'edges': [list(e) for e in edges], 'form': FORMS[gi % len(FORMS)]}
+    # areas with a common top-left corner used by several formulas and several times inside one formula: all sequences of
+    # three (area, function) uses; the entry class of every formula cell against the whole-file class and the reference
+    frag = [{'uses': list(u)} for u in itertools.product(range(len(FRAG_AREAS) * len(FRAG_FUNCS)), repeat=3)]
+    return [{'name': 'graphs', 'cases': gen(), 'runner': 'run_graphs', 'chunk': 12},
+            {'name': 'shared-fragments', 'cases': frag, 'runner': 'run_fragments', 'chunk': 6}]
+
+
+FRAG_AREAS = ['A1:B2', 'A1:C2', 'A1:A2']
+FRAG_FUNCS = ['SUM', 'MAX']
+FRAG_VALUES = {'A1': 2, 'B1': 30, 'C1': 500, 'A2': 7, 'B2': 11, 'C2': 13}
+
+
+def _frag_value(use):
+    area, fn = FRAG_AREAS[use // len(FRAG_FUNCS)], FRAG_FUNCS[use % len(FRAG_FUNCS)]
+    last = area[3]
+    vals = [v for a, v in FRAG_VALUES.items() if a[0] <= last]
+    return f'{fn}({area})', (sum(vals) if fn == 'SUM' else max(vals))
+
+
+def run_fragments(cases, stats):
+    vio = []
+    for i, c in enumerate(cases):
+        texts, vals = zip(*[_frag_value(u) for u in c['uses']])
+        cells = dict(FRAG_VALUES)
+        cells['E1'] = '=' + texts[0]
+        cells['E2'] = '=' + texts[1]
+        cells['E3'] = '=' + texts[2] + '+E1*1000+E2*1000000'
+        cells['E4'] = '=' + '+'.join(f'{t}*{10 ** (3 * k)}' for k, t in enumerate(texts))
+        want = {('S', 'E1'): vals[0], ('S', 'E2'): vals[1], ('S', 'E3'): vals[2] + vals[0] * 1000 + vals[1] * 1000000,
+                ('S', 'E4'): sum(v * 10 ** (3 * k) for k, v in enumerate(vals)), ('T', 'A1'): None}
+        want[('T', 'A1')] = want[('S', 'E3')] * 2 + want[('S', 'E4')]
+        spec = [('S', cells), ('T', {'A1': '=S!E3*2+S!E4'})]
+        bio = D.build_xlsx(spec)
+        stats['nontrivial'] += 1
+        for entry in [None] + sorted(want):
+            p = D.Parser().disable_safety_check().set_excel_file_path(bio)
+            bio.seek(0)
+            if entry:
+                p.set_entrypoint_cell(D.Cell(entry[0], entry[1][0], entry[1][1:]))
+            stats['transitions'] += 1
+            try:
+                with D.time_limit(20):
+                    text = p.get_translation()
+                k2, cls, _ = D.load_class(text)
+            except Exception as e:  # noqa
+                k2, cls = D.exc_kind(e), str(e)[:200]
+            if k2 != 'CLASS':
+                vio.append({'i': i, 'desc': {'clause': 'fragments', 'entry': bool(entry), 'outcome': k2}, 'expected': 'a class',
+                            'observed': {'entry': entry, 'detail': str(cls)[:200], 'cells': cells}})
+                break
+            ex = D.new_executor(cls)
+            targets = sorted(want) if entry is None else [entry] + [t for t in sorted(want) if t[0] == 'S' and t[1] in ('E1', 'E2') and
+                                                                    entry in (('S', 'E3'), ('T', 'A1'))]
+            bad = False
+            for t in targets:
+                o = D.eval_cell(ex, t[0], t[1][0], t[1][1:])
+                stats['validated'] += 1
+                if not (o[0] == 'VALUE' and o[1] == want[t] and not D.is_blank(o[1])):
+                    vio.append({'i': i, 'desc': {'clause': 'fragments_value', 'entry': bool(entry),
+                                                 'outcome': 'VALUE_MISMATCH' if o[0] == 'VALUE' else o[0]}, 'expected': want[t],
+                                'observed': {'entry': entry, 'cell': list(t), 'got': D.enc(o[1]) if o[0] == 'VALUE' else list(o),
+                                             'cells': cells}})
+                    bad = True
+                    break
+            if bad:
+                break
+    return vio
 
 
 def run_graphs(cases, stats):
@@ -126,8 +195,11 @@ def run_graphs(cases, stats):
         sheets = {'S': {}, 'T': {}}
         for k, cell in enumerate(tmp):
             sheets[cell[0]][f'{cell[1]}{cell[2]}'] = content[k]
-        sheets['S'].setdefault('E9', 1)
-        sheets['T'].setdefault('E9', 1)
+        # a filler keeps both sheets non-empty; with whole-column edges it sits in row 1, so that every dependency lies in the
+        # last used row of its sheet
+        filler = 'E1' if form == 'wholecol' else 'E9'
+        sheets['S'].setdefault(filler, 1)
+        sheets['T'].setdefault(filler, 1)
         spec = [('S', sheets['S']), ('T', sheets['T'])]
         bio = D.build_xlsx(spec)
         refv = ref_values(n, edges)
